@@ -216,6 +216,7 @@ func rewriteCurrent(expr string, ds *dataset, choice int) (string, []string, int
 	}
 	var rules []string
 	nregex := 0
+	distinct := map[string]int{} // the reading is chosen per distinct regex matcher text, not per occurrence
 	parser.Inspect(e, func(n parser.Node, _ []parser.Node) error {
 		vs, ok := n.(*parser.VectorSelector)
 		if !ok {
@@ -252,8 +253,13 @@ func rewriteCurrent(expr string, ds *dataset, choice int) (string, []string, int
 				continue
 			case m.Type == labels.MatchRegexp || m.Type == labels.MatchNotRegexp:
 				// regexp.Compile(value) without anchors
-				v := (choice >> (2 * uint(nregex))) & 3
-				nregex++
+				idx, seen := distinct[m.String()]
+				if !seen {
+					idx = nregex
+					distinct[m.String()] = idx
+					nregex++
+				}
+				v := (choice >> (2 * uint(idx))) & 3
 				if v == 0 {
 					kept = append(kept, m)
 					continue
